@@ -148,7 +148,10 @@ def _scalar_node_from_value(
             except ValueError:
                 pass
             else:
-                return _ast.FloatValue(value=str(fl))
+                # Only when nothing is lost: "02134" or "1e3" are strings
+                # that would come back as "2134.0" and "1000.0".
+                if str(fl) == scalar_value:
+                    return _ast.FloatValue(value=scalar_value)
 
         return _ast.StringValue(value=scalar_value)
 
